@@ -75,12 +75,28 @@ def _run_miri(here, leg, seed):
     env = _env({"MIRIFLAGS": MIRIFLAGS, "RSDD_MON_SMALL_TABLES": "1"})
     base = ["cargo", "+nightly", "miri", "run", "--offline", "--target-dir", tdir, "--"]
 
+    third_party = []
+
+    def third_party_aliasing(se):
+        """A Stacked-Borrows (experimental rules) report whose error location is inside a
+        third-party crate from the registry, e.g. petgraph 0.5.1's index_twice.  Not rsdd's
+        code: the case is re-run under Tree Borrows instead, and the report is listed in the
+        evidence, not raised as a violation (DESIGN.md, S15)."""
+        m = re.search(r"error: Undefined Behavior:[^\n]*\n\s*-->\s*(\S+)", se)
+        return bool(m) and "/.cargo/registry/" in m.group(1) and "Stacked Borrows rules it violated are still experimental" in se, (m.group(1) if m else "")
+
     def one(case):
         regime, i = case
         cmd = base + [leg["prop"], "--seed", str(seed), "--only", "%s:%d" % (regime, i), "--out", out, "--profile", "miri"]
         t0 = time.time()
         try:
             r = subprocess.run(cmd, cwd=harness, env=env, stdout=subprocess.PIPE, stderr=subprocess.PIPE, text=True, timeout=3000)
+            tp, where = third_party_aliasing(r.stderr) if r.returncode != 0 else (False, "")
+            if tp:
+                third_party.append({"case": "%s:%d" % (regime, i), "where": re.sub(r".*/registry/src/[^/]+/", "", where)})
+                env2 = dict(env)
+                env2["MIRIFLAGS"] = MIRIFLAGS + " -Zmiri-tree-borrows"
+                r = subprocess.run(cmd, cwd=harness, env=env2, stdout=subprocess.PIPE, stderr=subprocess.PIPE, text=True, timeout=3000)
             return case, r.returncode, r.stdout, r.stderr, time.time() - t0
         except subprocess.TimeoutExpired:
             return case, None, "", "timeout", time.time() - t0
@@ -111,7 +127,8 @@ def _run_miri(here, leg, seed):
                 inconcl.append("miri %s:%d exited %s: %s" % (regime, i, rc, se[-200:]))
         else:
             ran += 1
-    return {"summary": {"tool": "miri", "flags": MIRIFLAGS, "cases_clean": ran, "cases": len(cases), "observed": counters},
+    return {"summary": {"tool": "miri", "flags": MIRIFLAGS, "cases_clean": ran, "cases": len(cases), "observed": counters,
+                        "third_party_stacked_borrows_reports_rerun_under_tree_borrows": third_party},
             "violations": viols, "inconclusive": inconcl}
 
 
